@@ -316,8 +316,8 @@ class World:
             self.ci.SIM = None
         return self.result()
 
-    def build_server(self):
-        c, loop, P = self.cfg, self.loop, self.mods['pool']
+    def build_state(self):
+        c = self.cfg
         # server state: versioned tokens with identity
         self.S = {}
         for tn in range(c['ntenants']):
@@ -330,6 +330,9 @@ class World:
                 self.S[tn]['dbs'][f'db{d}'] = self.new_db(tn, d)
         self.history = collections.defaultdict(list)   # (tenant, kind) -> earlier objects
 
+    def build_server(self):
+        c, loop, P = self.cfg, self.loop, self.mods['pool']
+        self.build_state()
         kind = c['pool']
         common = dict(loop=loop, runstate_dir='/sim', backend_runtime_params=None,
                       std_schema=Tok('std'), refl_schema=Tok('refl'),
@@ -458,10 +461,10 @@ class World:
             self.ev('mut_copy', tn)
 
     # -- clients -------------------------------------------------------------------
-    def new_tag(self, method):
+    def new_tag(self, method, tn=0):
         self.next_tag += 1
         tag = self.next_tag
-        self.req_meta[tag] = {'method': method, 'injected': set(), 'worker': None}
+        self.req_meta[tag] = {'method': method, 'injected': set(), 'worker': None, 'tn': tn}
         return tag
 
     async def client(self, i):
@@ -503,6 +506,12 @@ class World:
         if extra:
             o.update(extra)
         return o
+
+    def pool_for(self, tn):
+        return self.pool
+
+    def req_opts(self, methname, args):
+        return args[-1] if args and isinstance(args[-1], dict) else None
 
     def kwargs(self, tn):
         return {'client_id': tn} if self.cfg['pool'] == 'multitenant' else {}
@@ -549,9 +558,9 @@ class World:
             task.cancel()
 
     async def do_call(self, i, tn, method, snap):
-        tag = self.new_tag(method)
+        tag = self.new_tag(method, tn)
         o = self.opts(tag)
-        fn = getattr(self.pool, method)
+        fn = getattr(self.pool_for(tn), method)
         status, res = await self.guarded(i, tag, fn(*snap, tag, o, **self.kwargs(tn)))
         if status != 'ok':
             return None
@@ -572,9 +581,9 @@ class World:
         return res
 
     async def do_simple(self, i, tn):
-        tag = self.new_tag('interpret_backend_error')
+        tag = self.new_tag('interpret_backend_error', tn)
         o = self.opts(tag)
-        status, res = await self.guarded(i, tag, self.pool.interpret_backend_error(tag, o))
+        status, res = await self.guarded(i, tag, self.pool_for(tn).interpret_backend_error(tag, o))
         if status == 'ok':
             self.ok += 1
             if tuple(res) != ('simple', tag):
@@ -582,14 +591,15 @@ class World:
 
     async def do_tx(self, i, tn, snap, txid):
         c, t = self.cfg, self.tape
-        tag = self.new_tag('compile')
+        tag = self.new_tag('compile', tn)
         o = self.opts(tag, {'tx': txid})
-        status, res = await self.guarded(i, tag, self.pool.compile(*snap, tag, o, **self.kwargs(tn)))
+        status, res = await self.guarded(i, tag, self.pool_for(tn).compile(*snap, tag, o, **self.kwargs(tn)))
         if status != 'ok':
             return
         self.ok += 1
         self.check_echo(tag, 'compile', res[0], snap)
         pstate = res[1]
+        sid = res[2] if len(res) > 2 else 0     # (the remote compiler server names the state it keeps)
         if pstate is None:
             self.violate('E1', 'tx-state-missing', f'request {tag} asked for a transaction state, got None')
             return
@@ -597,17 +607,21 @@ class World:
         root = snap[1]
         for k in range(1 + t.draw(3, 'tx_len')):
             await self.loop.sleep_external(t.draw(c['think'] + 1, 'tx_think') * MS)
-            tag = self.new_tag('compile_in_tx')
+            tag = self.new_tag('compile_in_tx', tn)
             o = self.opts(tag)
             self.probes['compile_in_tx'] += 1
             status, res = await self.guarded(
-                i, tag, self.pool.compile_in_tx(snap[0], root, txid, pstate, 0, tag, o,
-                                                **self.kwargs(tn)))
+                i, tag, self.pool_for(tn).compile_in_tx(snap[0], root, txid, pstate, sid, tag, o,
+                                                        **self.kwargs(tn)))
             if status != 'ok':
-                # the server keeps the last good state blob; an aborted tx ends here
+                # the server keeps the last good state blob; the session usually goes on in the
+                # same transaction (ROLLBACK [TO SAVEPOINT] is compiled with that blob)
+                if status == 'error' and t.draw(4, 'tx_continue_after_error'):
+                    self.probes['tx_continued_after_error'] += 1
+                    continue
                 return
             self.ok += 1
-            units, pstate, _ = res
+            units, pstate, sid = res
             exp = ('echo_tx', tag, real_pickle.loads(root), txid, seen, txid)
             if tuple(units) != exp:
                 got = tuple(units)
@@ -856,7 +870,7 @@ class World:
             meta['worker'] = wk.pid
             if tag in self.cancelled_tags:
                 self.wfaults[wk.pid].append('cancelled')
-            if isinstance(args[-1], dict) and args[-1].get('fail'):
+            if (self.req_opts(methname, args) or {}).get('fail'):
                 self.wfaults[wk.pid].append('compile_error')
             if not meta.get('done'):
                 self.open_by_worker[wk.pid].add(tag)
